@@ -154,4 +154,24 @@ theorem sarsal_qstar_fixed (γ α lam tol : Rat) (A : Nat)
   simp only [this]
   exact updateTraces_err0 s a _ tol tr q hnd
 
+/-! ### observation outside the property's clauses (modelled as written)
+
+  `OffPolicyControl::stepUpdateQ` hands `getTraceDiscount` the greedy action of the NEXT state `s1`, although the
+  header documents `maxA` as "the already computed best greedy action for state s" and the derived classes compare it
+  with the action `a` taken in `s`.  Consequently a control learner and the corresponding Evaluation learner run with
+  the ε-greedy policy of the same table as target disagree on the trace discount (λ > 0 only; the λ = 0, bounds and
+  fixed-point clauses of C11 do not depend on it).  Test by evaluation on a 2×2 table: -/
+
+/-- the ε-greedy policy with respect to the table `q` (what one would hand to the Evaluation classes) -/
+def epsGreedyPi (ε : Rat) (A : Nat) (q : QF) : Nat → Nat → Rat := fun s x => probGreedy ε A x (argmaxA A (q s))
+
+def cxQ : QF := fun s a => if s = a then 1 else 0
+
+/-- TreeBackup(λ=1), γ=1, ε=0, cut-off 1/2, stored trace (1,1,1); sample (s=0,a=0,s1=1): the control learner cuts the old
+    trace (it looks at arg-max of row 1), the evaluation learner with the greedy target keeps it (arg-max of row 0) -/
+theorem control_eval_trace_discount_differ :
+    (controlStep .tb 1 1 1 (1/2) 0 2 (fun _ _ => 1) [⟨1, 1, 1⟩] cxQ 0 0 1 0).1.length = 1 ∧
+    (evalStep .tb 1 1 1 (1/2) 2 (epsGreedyPi 0 2 cxQ) (fun _ _ => 1) [⟨1, 1, 1⟩] cxQ 0 0 1 0).1.length = 2 := by
+  constructor <;> decide +kernel
+
 end AITB.Learn
